@@ -58,6 +58,8 @@ def plan(tier, seed):
     specs.append({"name": "large0", "kind": "large", "shard": 0, "cases": 3000 if tier == "quick" else 40000, "timeout": 3000})
     specs.append({"name": "large1", "kind": "large", "shard": 1, "cases": 3000 if tier == "quick" else 40000, "timeout": 3000})
     specs.append({"name": "count", "kind": "count", "timeout": 3000})
+    for i in range(4):
+        specs.append({"name": "high%d" % i, "kind": "high", "shard": i, "cases": 1500 if tier == "quick" else 15000, "timeout": 3000})
     if tier == "thorough":
         specs.append({"name": "gridbc", "kind": "grid", "cells": [c for c in cells if c[2] <= 3000], "timeout": 3000,
                       "mode": {"boundscheck": True}})
@@ -66,7 +68,8 @@ def plan(tier, seed):
 
 def required(tier):
     return {"index_checked": 20000, "inverse_checked": 20000, "walk_steps": 20000, "coef_checked": 3000,
-            "coef_beyond_table": 500, "large_roundtrips": 2000, "count_unique_checked": 1000, "spaces_exhausted": 60}
+            "coef_beyond_table": 500, "large_roundtrips": 2000, "count_unique_checked": 1000, "spaces_exhausted": 60,
+            "high_ploidy_spaces_exhausted": 40, "high_ploidy_coef_checked": 3000, "high_ploidy_roundtrips": 3000}
 
 
 def coverage_extra(tier, col):
@@ -288,9 +291,132 @@ def run_count(spec, col):
                           {"kind": "count", "n_alleles": na, "ploidy": ploidy})
 
 
+HIGH_PLOIDIES = [21, 24, 27, 28, 29, 32, 40, 48, 56, 59, 60, 61, 62, 63, 64, 65, 66, 67, 72, 96, 100, 127, 128, 129, 160, 200, 255, 256, 257, 300]
+
+
+def high_cells(tier):
+    """(ploidy > 20, n_alleles) spaces small enough to exhaust: pooled samples have ploidies of this size with few alleles."""
+    lim = 3000 if tier == "quick" else 40000
+    out = []
+    for ploidy in HIGH_PLOIDIES:
+        for na in range(1, 7):
+            n = math.comb(na + ploidy - 1, ploidy)
+            if n <= lim:
+                out.append((ploidy, na, n))
+    return out
+
+
+def big_space_high(rng):
+    """(n_alleles, ploidy > 20) with N < 2^53."""
+    while True:
+        ploidy = int(rng.choice(HIGH_PLOIDIES)) if rng.random() < 0.7 else int(rng.integers(21, 321))
+        na_max = 2
+        while math.comb(na_max + ploidy, ploidy) < 2**53:
+            na_max += 1
+        na = int(rng.integers(2, na_max + 1))
+        n = math.comb(na + ploidy - 1, ploidy)
+        if n < 2**53:
+            return na, ploidy, n
+
+
+def run_high(spec, col, tier):
+    """Ploidy 21-320 (the property quantifies over ALL ploidies with N < 2^53; a pool of 32 tetraploids has ploidy 128)."""
+    from mchap import jitutils as J
+    from mchap.combinatorics import count_unique_genotypes
+
+    sh = spec["shard"]
+    # coefficients: k up to 320 with n - k small enough that the value stays below 2^53
+    ks = [k for i, k in enumerate(list(range(15, 70)) + HIGH_PLOIDIES[15:] + [320]) if i % 4 == sh]
+    for k in ks:
+        for m in range(0, 40):
+            n = k + m
+            want = math.comb(n, k)
+            if want >= 2**53:
+                break
+            for name, f in (("comb", J.comb), ("_comb", J._comb)):
+                got = int(f(n, k))
+                col.count("high_ploidy_coef_checked")
+                col.case("c%s:%d,%d" % (name, n, k), nontrivial=True)
+                if got != want:
+                    col.violation("coefficient-inexact-at-high-ploidy", "%s(%d,%d)=%d want %d" % (name, n, k, got, want), {"kind": "comb", "f": name, "n": n, "k": k})
+            na = m + 1
+            for name, f in (("comb_with_replacement", J.comb_with_replacement), ("_comb_with_replacement", J._comb_with_replacement)):
+                got = int(f(na, k))
+                col.count("high_ploidy_coef_checked")
+                col.case("c%s:%d,%d" % (name, na, k), nontrivial=True)
+                if got != want:
+                    col.violation("coefficient-inexact-at-high-ploidy", "%s(%d,%d)=%d want %d" % (name, na, k, got, want), {"kind": "comb", "f": name, "n": na, "k": k})
+            got = count_unique_genotypes(na, k)
+            col.count("count_unique_checked")
+            if int(got) != want:
+                col.violation("count-unique-genotypes-inexact", "count_unique_genotypes(%d,%d)=%r want %d" % (na, k, got, want), {"kind": "count", "n_alleles": na, "ploidy": k})
+    # exhaustive small spaces of high ploidy: bijection, order, inverse, enumerator
+    for ci, (ploidy, na, n) in enumerate(high_cells(tier)):
+        if ci % 4 != sh:
+            continue
+        gs = vcf_order(na, ploidy)
+        col.count("high_ploidy_spaces_exhausted")
+        walker = np.zeros(ploidy, dtype=np.int64)
+        arr = np.array(gs, dtype=np.int64).reshape(n, ploidy)
+        seen = set()
+        nb = 0
+        for i, g in enumerate(gs):
+            col.case("g%d:%d:%d" % (ploidy, na, i), nontrivial=na >= 2)
+            idx = int(J.genotype_alleles_as_index(arr[i]))
+            col.count("index_checked")
+            seen.add(idx)
+            if idx != i and nb < 3:
+                nb += 1
+                col.violation("index-wrong-at-high-ploidy", "ploidy %d alleles %d: genotype #%d (allele counts %s) has index %d" % (ploidy, na, i, [g.count(a) for a in range(na)], idx),
+                              {"kind": "index", "genotype": list(g)})
+            inv = J.index_as_genotype_alleles(i, ploidy)
+            col.count("inverse_checked")
+            if (inv is None or tuple(int(x) for x in inv) != g) and nb < 3:
+                nb += 1
+                col.violation("index-wrong-at-high-ploidy", "ploidy %d alleles %d: index %d decodes to allele counts %s want %s"
+                              % (ploidy, na, i, None if inv is None else [inv.tolist().count(a) for a in range(na)], [g.count(a) for a in range(na)]),
+                              {"kind": "inverse", "index": i, "ploidy": ploidy})
+            col.count("walk_steps")
+            if tuple(int(x) for x in walker) != g:
+                if nb < 3:
+                    nb += 1
+                    col.violation("enumerator-order-wrong", "increment_genotype walk at step %d ploidy %d alleles %d" % (i, ploidy, na), {"kind": "walk", "ploidy": ploidy, "n_alleles": na, "step": i})
+                walker[:] = g
+            J.increment_genotype(walker)
+        if seen != set(range(n)):
+            col.violation("index-wrong-at-high-ploidy", "ploidy %d alleles %d: image of the index function is not 0..N-1 (%d distinct values for %d genotypes)" % (ploidy, na, len(seen), n),
+                          {"kind": "bijection", "ploidy": ploidy, "n_alleles": na})
+    # sampled large spaces of high ploidy
+    for c in range(spec["cases"]):
+        rng = gen.rng_for(int(spec.get("seed", 0)), ID, 50 + sh, c)
+        na, ploidy, n = big_space_high(rng)
+        kind = rng.choice(["first", "last", "rand", "rand"])
+        i = min(n - 1, int(rng.integers(0, 10))) if kind == "first" else max(0, n - 1 - int(rng.integers(0, 10))) if kind == "last" else int(rng.integers(0, n))
+        g = unrank(i, ploidy)
+        col.case("H%d:%d:%d" % (ploidy, na, i), nontrivial=True)
+        col.count("high_ploidy_roundtrips")
+        idx = int(J.genotype_alleles_as_index(np.array(g, dtype=np.int64)))
+        if idx != i:
+            col.violation("index-wrong-at-high-ploidy", "ploidy %d alleles %d: genotype with allele counts %s has index %d want %d" % (ploidy, na, [g.count(a) for a in range(na)], idx, i),
+                          {"kind": "index", "genotype": g})
+        inv = J.index_as_genotype_alleles(i, ploidy)
+        if inv is None or [int(x) for x in inv] != g:
+            col.violation("index-wrong-at-high-ploidy", "ploidy %d alleles %d: index %d decodes wrongly" % (ploidy, na, i), {"kind": "inverse", "index": i, "ploidy": ploidy})
+        if i + 1 < n:
+            w = np.array(g, dtype=np.int64)
+            J.increment_genotype(w)
+            col.count("walk_steps")
+            if w.tolist() != unrank(i + 1, ploidy):
+                col.violation("enumerator-order-wrong", "ploidy %d: successor of genotype #%d wrong" % (ploidy, i), {"kind": "succ", "genotype": g})
+        if c < 1 and sh == 0:
+            col.sample({"n_alleles": na, "ploidy": ploidy, "N": n, "index": i, "allele_counts": [g.count(a) for a in range(na)]})
+
+
 def run_shard(tier, seed, spec, col):
     spec = dict(spec)
     spec["seed"] = seed
+    if spec["kind"] == "high":
+        return run_high(spec, col, tier)
     {"grid": run_grid, "coef": run_coef, "large": run_large, "count": run_count}[spec["kind"]](spec, col)
 
 
